@@ -85,3 +85,66 @@ pub fn pipeline_good(x: u32) -> u32 {
     let a = stage_a(x);
     stage_b(a)
 }
+
+/// value-provenance controls for the path interpreter (rss/optabs.py): which sources a returned value is taken from
+pub struct Store {
+    pub table: Option<Option<u32>>,
+    pub total: u32,
+    pub limit_a: Option<u32>,
+    pub limit_b: Option<u32>,
+}
+
+impl Store {
+    fn a(&self) -> Option<u32> { self.limit_a }
+    fn b(&self) -> Option<u32> { self.limit_b }
+
+    /// capped: min of both
+    pub fn cap_min(&self) -> u32 {
+        match self.table {
+            Some(Some(c)) => u32::min(c, self.total),
+            Some(None) => self.total,
+            None => 0,
+        }
+    }
+    /// capped: compared with the total before it is returned
+    pub fn cap_if(&self) -> u32 {
+        match self.table {
+            Some(Some(c)) => if c < self.total { c } else { self.total },
+            Some(None) => self.total,
+            None => 0,
+        }
+    }
+    /// capped: map_or with a closure that takes the minimum
+    pub fn cap_map_or(&self) -> u32 {
+        match self.table {
+            Some(limit) => limit.map_or(self.total, |c| c.min(self.total)),
+            None => 0,
+        }
+    }
+    /// NOT capped: the table value is returned as it is
+    pub fn cap_missing(&self) -> u32 {
+        match self.table {
+            Some(limit) => limit.unwrap_or(self.total),
+            None => 0,
+        }
+    }
+    /// both limits count
+    pub fn both_match(&self) -> Option<u32> {
+        match (self.a(), self.b()) {
+            (Some(x), Some(y)) => Some(x.min(y)),
+            (Some(x), None) => Some(x),
+            (None, y) => y,
+        }
+    }
+    pub fn both_map_or(&self) -> Option<u32> {
+        let (a, b) = (self.a(), self.b());
+        match a {
+            Some(x) => Some(b.map_or(x, |y| x.min(y))),
+            None => b,
+        }
+    }
+    /// the second limit is ignored whenever the first is present
+    pub fn first_wins(&self) -> Option<u32> {
+        self.a().or(self.b())
+    }
+}
